@@ -14,7 +14,7 @@ class Harness:
     conf_every = 53
     conf_first = 150
     cap = 1_500_000
-    time_cap = None        # seconds per configuration; default from VERIF_TIER (quick 150 s, thorough 900 s)
+    time_cap = None        # seconds per configuration; default from VERIF_TIER (quick 300 s, thorough 900 s)
     live_queries = ()      # tuples (rule, must_mask, forbid_mask, fairness_masks, doc)
     special_overrides = None
 
@@ -103,7 +103,7 @@ class Explorer:
         cap = H.cap
         rot = self.seed
         import os as _os
-        tcap = H.time_cap or (900 if _os.environ.get("VERIF_TIER_EFFECTIVE") == "thorough" else 150)
+        tcap = H.time_cap or (900 if _os.environ.get("VERIF_TIER_EFFECTIVE") == "thorough" else 300)
         npop = 0
         while front:
             npop += 1
